@@ -12,7 +12,7 @@ VERDICT_MSGS = (
     'possible arithmetic underflow/overflow', 'possible division by zero', 'index out of bounds',
     'loop invariant not preserved', 'decreases not satisfied', 'possible bit shift underflow/overflow',
     'recommendation not met', 'failed to satisfy', 'unreachable', 'cannot show', 'might', 'not satisfied',
-    'possible', 'could not prove', 'constructed value may fail to meet its declared type invariant',
+    'possible', 'could not prove', 'unable to prove', 'constructed value may fail to meet its declared type invariant',
 )
 UNDECIDED_MSGS = ('rlimit', 'resource limit', 'timed out', 'timeout', 'out of memory')
 
